@@ -57,3 +57,11 @@ int fx_touch_first_s(char *dest, size_t dmax, const char *src) {   /* writes des
     while (dmax) { *dest = *src; if (!*dest) return 0; dest++; src++; dmax--; }
     invoke_safe_str_constraint_handler("no space", dest, ESNOSPC); return ESNOSPC;
 }
+/* one report of a memory function goes to the string handler */
+extern void invoke_safe_mem_constraint_handler(const char *msg, void *ptr, int error);
+int fx_family_mixed_s(void *dest, size_t dmax, int ch) {
+    if (!dest) { invoke_safe_mem_constraint_handler("dest is null", NULL, ESNULLP); return ESNULLP; }
+    if (dmax == 0) { invoke_safe_mem_constraint_handler("dmax is 0", dest, ESZEROL); return ESZEROL; }
+    if (ch > 255) { invoke_safe_str_constraint_handler("ch exceeds max", dest, ESLEMAX); return ESLEMAX; }
+    return 0;
+}
